@@ -131,7 +131,14 @@ pub fn record_cont(output: &str) {
             }
             if arm_sensitivity(&p, &q) < 240e-9 { break; }
         }
-        if let Some(c) = &shape_case { if c.kws.collides(&q) { continue; } }
+        // (a robot with shape: the posture has to be collision free for every J4 / J6 split within 0.6 rad of the drawn
+        //  one - the recovered answer takes its split from the previous joints, and a tool or wrist body that is free in
+        //  one split may touch the folded arm in another; such an answer is filtered out rightly)
+        if let Some(c) = &shape_case {
+            let s3 = p.sign_corrections[3] as f64;
+            let s5 = p.sign_corrections[5] as f64;
+            if (-12..=12).any(|i| { let d = i as f64 * 0.05; let mut v = q; v[3] += d * s3; v[5] -= d * s5; c.kws.collides(&v) }) { continue; }
+        }
         let m = solver::margins(&p, &q);
         if !(m.elbow > 0.1 && m.shoulder > 0.08 * scale) { continue; }
         // limits (two robots in seven): ranges centred at the singular posture itself, so that the CONSTRAINT_CENTERED
